@@ -1607,7 +1607,7 @@ def engine_section() -> list[str]:
     L.append("/-- `execute.pytask_execute_task_teardown`: its checks in source order. -/")
     L.append(f"def teardownChecks : List TCheck := {_lean(f['tchecks'])}")
     L.append("/-- `pytask_execute_build`: the statements of its loop in source order. -/")
-    L.append(f"def buildLoop : List BOp := {_lean(f['loop'])}")
+    L.append(f"def buildLoopOps : List BOp := {_lean(f['loop'])}")
     L.append("end Eng")
     L.append("")
     return L
